@@ -43,10 +43,8 @@ def sym_exp(x):
 
 
 def math_stub():
-    m = types.ModuleType("math")
-    for k in dir(_math):
-        if not k.startswith("__"):
-            setattr(m, k, getattr(_math, k))
+    from .loader import _math_stub
+    m = _math_stub()           # exact fsum / sqrt / ... for model scalars; the rest is the real module
     m.exp = sym_exp
     return m
 
